@@ -380,7 +380,7 @@ class GateMonitor(WireTracker):
                 vs.append((f"ce-outcome:unknown-peer:answered-{rcode}-instead-of-3010", f"{f!r}"))
             st["expect_closed"] = "3010"
             return vs
-        if variant == "nocommon":
+        if variant in ("nocommon", "crosskind"):
             if rcode != 5010:
                 vs.append((f"ce-outcome:no-common-application:answered-{rcode}-instead-of-5010", f"{f!r}"))
             return vs
